@@ -823,6 +823,40 @@ theorem known_of_all {T : MassTable} {mono : Bool} {c : Comp}
   · next m hm => exact ⟨m, hm⟩
   · cases this
 
+/-- `chem_mass` knows every symbol of the table and the three particles, provided every non-isotope row has an average
+mass (a linear check on the table) -/
+theorem known_of_table {T : MassTable} (mono : Bool) {k : Str}
+    (hall : T.elems.all (fun e => isIsoKey e.sym || e.avg.isSome) = true)
+    (hk : k ∈ T.elems.map (·.sym) ∨ k = [101] ∨ k = [112] ∨ k = [110]) : Known T mono k := by
+  unfold Known elemMass findElem
+  cases hf : T.elems.find? (fun e => e.sym == k) with
+  | none =>
+    rcases hk with hk | hk | hk | hk
+    · obtain ⟨e, he, rfl⟩ := List.mem_map.1 hk
+      have := List.find?_eq_none.1 hf e he
+      simp at this
+    · subst hk; exact ⟨_, rfl⟩
+    · subst hk; exact ⟨_, rfl⟩
+    · subst hk; exact ⟨_, rfl⟩
+  | some e =>
+    have he : e ∈ T.elems := List.mem_of_find?_eq_some hf
+    have hs : e.sym = k := by simpa using List.find?_some hf
+    have h1 := List.all_eq_true.1 hall e he
+    rw [hs] at h1
+    simp only [Bool.or_eq_true] at h1
+    by_cases hm : (mono || isIsoKey k) = true
+    · exact ⟨e.iso.toRat, by simp only [hm, if_true]⟩
+    · have hi : isIsoKey k = false := by
+        cases h : isIsoKey k
+        · rfl
+        · simp [h] at hm
+      have ha : e.avg.isSome = true := by
+        rcases h1 with h1 | h1
+        · rw [hi] at h1; cases h1
+        · exact h1
+      obtain ⟨a, ha'⟩ := Option.isSome_iff_exists.1 ha
+      exact ⟨a.toRat, by simp only [hm, Bool.false_eq_true, if_false, ha']⟩
+
 theorem chemMassComp_known {T : MassTable} {mono : Bool} {c : Comp} (h : ∀ kv ∈ c, Known T mono kv.1) :
     chemMassComp T mono c = .ok (msum T mono c) := by
   induction c with
